@@ -58,18 +58,17 @@ def c19 (toks : List String) : String :=
   else
   if toks.head? = some "blitz" then
     match toks.tail.mapM String.toNat? with
-    | some [width, buflen, left, top, right, bottom, bw, bh] =>
+    | some (width :: buflen :: left :: top :: right :: bottom :: bw :: bh :: more) =>
       let g : Geo := ⟨left, top, right, bottom, bw⟩
       let buf := (List.range buflen).map bufCell
-      -- decompress of a compressed 32 bpp event carrying only the format header
-      match Codec.decompress ⟨bw, bh, 32, true, #[0x10]⟩ with
+      -- decompress of a compressed event: 32 bpp carrying only the format header, or 16 bpp with one colour order
+      let (bpp, data) : Nat × Array UInt8 := if more = [16] then (16, #[0x61, 0x34, 0x12]) else (32, #[0x10])
+      match Codec.decompress ⟨bw, bh, bpp, true, data⟩ with
       | .ok bytes =>
-        let img : List UInt32 := (List.range (bytes.length / 4)).map fun k =>
-          UInt32.ofNat ((bytes.getD (4 * k) 0).toNat + 256 * (bytes.getD (4 * k + 1) 0).toNat + 65536 * (bytes.getD (4 * k + 2) 0).toNat + 16777216 * (bytes.getD (4 * k + 3) 0).toNat)
-        let r := blit buf width g img
-        (match r.2 with | .ok _ => "ok " | .err _ => "E " | .panic _ => "P ") ++ showCells r.1.buf ++ "\t-"
-      | .err _ => "E " ++ showCells buf ++ "\t-"
-      | .panic _ => "P " ++ showCells buf ++ "\t-"
+        let r := blit buf width g (cellsOfBytes bytes)
+        (match r.2 with | .ok _ => "ok " | .err _ => "E " | .panic _ => "P ") ++ showCellsHex r.1.buf ++ "\t-"
+      | .err _ => "E " ++ showCellsHex buf ++ "\t-"
+      | .panic _ => "P " ++ showCellsHex buf ++ "\t-"
     | _ => "bad-case"
   else
   match toks.tail.mapM String.toNat? with
